@@ -383,6 +383,7 @@ def witness(ctx, zoo, seed, quick):
     import pandas as pd
     rng = np.random.default_rng(seed + 1313)
     hits = 0
+    answered = []
 
     def viol(key, what, m_name, X, extra=None, method='probability_density'):
         nonlocal hits
@@ -472,25 +473,26 @@ def witness(ctx, zoo, seed, quick):
         carr = impl_call(m, 'cdf', pts[:k], seed=77)
         if not (close(cperm, c_impl, 1e-9) and close(carr, c_impl, 1e-9)):
             viol(f'witness:container-changes-cdf:{name}', f'{name}: cdf differs between DataFrame, permuted DataFrame and array', name, Xf.iloc[:k])
-        # ---- W6 (D3) a frame that lacks a training column is not a query point: it must not be answered
+        # ---- W6 (D3) a frame that lacks a training column is not a query point: is it answered anyway?
         if d >= 2:
             sub = Xf[[L[0]]].iloc[:2]
             try:
                 with warnings.catch_warnings():
                     warnings.simplefilter('ignore')
-                    v = np.atleast_1d(np.asarray(m.probability_density(sub), float))
-                answered = True
+                    np.atleast_1d(np.asarray(m.probability_density(sub), float))
+                answered.append(name)
             except Exception:
-                answered = False
-            ctx.case(('witness', name, 'missing-column'), {'oracle': 'density of a frame lacking training columns', 'model': name, 'answered': answered})
-            if answered:
-                hits += 1
-                ctx.violation('D3:missing-column-silently-answered',
-                              f'probability_density of a DataFrame holding only column {L[0]!r} of a {d}-column model returns {v.tolist()} instead of raising: '
-                              '_transform_to_normal silently skips missing training columns and scipy broadcasts the 1-column score matrix against the '
-                              f'{d}x{d} correlation (the value is the density at (s,...,s)); cumulative_distribution raises on the same input',
-                              {'model': name, 'columns_given': [str(L[0])], 'training_columns': [str(c) for c in L], 'values': sub.to_numpy().tolist(),
-                               'returned': v.tolist(), 'repro': D3_REPRO})
+                pass
+    ctx.extra['models_answering_a_frame_with_one_training_column'] = answered
+    d3 = d3_probe()
+    ctx.case(('witness', 'D3'), {'oracle': 'density of a frame lacking training columns must not be answered', 'answered': d3 is not None})
+    if d3 is not None:
+        hits += 1
+        ctx.violation('D3:missing-column-silently-answered',
+                      "probability_density(X[['a']]) on a model fitted on columns a, b, c returns numbers instead of raising: _transform_to_normal "
+                      'silently skips missing training columns (`if column_name in X`) and scipy broadcasts the 1-column score matrix against the 3x3 '
+                      'correlation, i.e. the value is the density at (s_a, s_a, s_a); cumulative_distribution raises on the same input',
+                      {'training_columns': ['a', 'b', 'c'], 'columns_given': ['a'], 'returned': d3, 'repro': D3_REPRO})
     ctx.extra['witness_search_hits'] = hits
 
 
@@ -506,6 +508,23 @@ except Exception as e:
     print('raises', type(e).__name__); sys.exit(0)
 print('density of a point with two missing coordinates:', v); sys.exit(1)
 '''
+
+
+def d3_probe():
+    """fixed example of D3; returns the values returned by the implementation, or None when it raises"""
+    import pandas as pd
+    from copulas.multivariate import GaussianMultivariate
+    from copulas.univariate import GaussianUnivariate
+    rng = np.random.default_rng(0)
+    df = pd.DataFrame({'a': rng.normal(size=30), 'b': rng.normal(size=30) + 3, 'c': rng.normal(size=30) * 2})
+    with warnings.catch_warnings():
+        warnings.simplefilter('ignore')
+        m = GaussianMultivariate(distribution=GaussianUnivariate)
+        m.fit(df)
+        try:
+            return [round(float(v), 12) for v in np.atleast_1d(m.probability_density(df[['a']].iloc[:2]))]
+        except Exception:
+            return None
 
 
 def replay(seed, tier, model, kind, tag, method):
